@@ -170,6 +170,29 @@ def _reject_normal_form(fi: FuncInfo, loop: ast.For) -> frozenset:
     return frozenset(out)
 
 
+def check_strip_with_word(run: Run, rule: str, scope: tuple[str, ...] = ("schemas.loader", "core.hydrator", "core.file_ops", "mcp.write", "mcp.validate", "mcp.eject", "mcp.base_tool", "cli.main", "core.schema_extractor")) -> None:
+    """str.strip / lstrip / rstrip take a SET of characters, not an affix"""
+    run.rule(rule, "a name is never shortened with strip()/lstrip()/rstrip() of a multi-character word: those take a set of characters, so rstrip('_SCHEMA') also eats the tail of SKILLS, CHEMA, DEBATE_TRANSCRIPTS - two different schema names / paths then select the same file; an affix is removed with removeprefix/removesuffix or a slice under startswith/endswith", 1)
+    n = 0
+    for m in run.project.modules.values():
+        if not any(m.name.endswith(x) for x in scope):
+            continue
+        for fi in m.functions.values():
+            for c in walk_no_nested(fi.node):
+                if isinstance(c, ast.Call) and isinstance(c.func, ast.Attribute) and c.func.attr in ("strip", "lstrip", "rstrip") and len(c.args) == 1:
+                    v = run.project.try_fold(m, c.args[0])
+                    if not isinstance(v, str):
+                        continue
+                    n += 1
+                    wordy = len(v) >= 3 and sum(ch.isalnum() for ch in v) >= 2 and len(set(v)) >= 3
+                    run.instance(rule, m.loc(c), f"{fi.qualname}: `{norm(c)[:70]}`", ok=not wordy)
+                    if wordy:
+                        run.violation(rule, m, fi.qualname, c, f"`{norm(c)[:80]}` removes any run of the characters {sorted(set(v))} from the end(s), not the affix {v!r}: different names collapse onto one (e.g. SKILLS and SKILL for '_SCHEMA'), so an unknown or unintended name selects an existing file")
+    run.instance(rule, "src/octave_mcp", f"{n} strip()/lstrip()/rstrip() call(s) with a constant argument examined", ok=True, nontrivial=False)
+    ctl = ast.parse("name.rstrip('_SCHEMA')").body[0].value  # type: ignore[attr-defined]
+    run.control(rule, "rstrip('_SCHEMA') is recognised as a strip with a word", isinstance(ctl, ast.Call) and ctl.func.attr == "rstrip" and len(ctl.args[0].value) >= 3)  # type: ignore[attr-defined]
+
+
 def check(run: Run) -> None:
     res = Resolver(run.project)
     run.rule("R19.1", "validation dominates I/O: every filesystem access on a user-supplied path (or an alias of it) executes only after the path validator accepted that path", 20)
@@ -187,6 +210,7 @@ def check(run: Run) -> None:
     _r19_5(run, res)
     _r19_6(run, res)
     _r19_7(run, res)
+    check_strip_with_word(run, "R19.9")
     check_no_path_rewrite(run)
 
 
